@@ -920,18 +920,29 @@ func (obj *Package) GetFunc(name string) (fi *FuncInfo) {
 // DefLambda registers a named lambda function. This is called by defun.
 func (obj *Package) DefLambda(name string, lam *Lambda, fc func(args List) Object, kind Symbol) (fi *FuncInfo) {
 	obj.mu.Lock()
-	if xlam := obj.lambdas[name]; xlam != nil {
+	// A function inherited from a used package is redefined in place. It
+	// stays a function of the package it belongs to and that is where its
+	// lambda is registered.
+	home := obj
+	if fi := obj.funcs[name]; fi != nil && fi.Pkg != nil && fi.Pkg != obj {
+		home = fi.Pkg
+		home.mu.Lock()
+	}
+	if xlam := home.lambdas[name]; xlam != nil {
 		xlam.Doc = lam.Doc
 		xlam.Forms = lam.Forms
 		xlam.Closure = lam.Closure
 		xlam.Macro = lam.Macro
 	} else {
-		obj.lambdas[name] = lam
+		home.lambdas[name] = lam
+	}
+	if home != obj {
+		home.mu.Unlock()
 	}
 	if fi := obj.funcs[name]; fi != nil {
 		fi.Doc = lam.Doc
 		fi.Create = fc
-		fi.Pkg = obj
+		fi.Pkg = home
 		fi.Kind = kind
 	} else {
 		fi := FuncInfo{
